@@ -1336,6 +1336,8 @@ static void run_script(void)
       int err = (int) nextlong(EIO);
       int f = fn ? wrap_fn_by_name(fn) : -1;
       if (f >= 0) wrap_add_fault(side, f, k, err);
+    } else if (!strcmp(t, "FOFF")) {
+      W->faults_disabled = 1;  // whatever has not fired yet never will
     } else if (!strcmp(t, "FR")) {
       // FR fn k err : like F on the parent side, k counted from this point of the scenario
       const char *fn = nexttok();
